@@ -72,7 +72,7 @@ Fixpoint resume (fuel : nat) (q : sq) : res :=
   match fuel with O => RStuck | S fuel' =>
   let pbw := u64 (u32 (width q - 1) * WIDTH_INTERVAL) in
   let lockbits := Z.lor (Z.lor (self q) WIDTH_FULL_BIT) IN_BARRIER in
-  match resume_loop 0 0 (st q) SUSPEND_BITS 0 pbw lockbits with
+  match resume_loop 0 0 (st q) 0 pbw lockbits with
   | Commit new _ =>
       let old := st q in
       if nz (Z.land (Z.lxor old new) NEEDS_ACT) then resume fuel' (with_st q (activate_role new))  (* resume_activate *)
@@ -87,7 +87,7 @@ Fixpoint resume (fuel : nat) (q : sq) : res :=
 
 (* dispatch_activate = _dispatch_lane_resume(dq, true) *)
 Definition activate (q : sq) : res :=
-  match resume_activate_loop 0 1 (st q) SUSPEND_BITS with
+  match resume_activate_loop 0 1 (st q) with
   | Commit new _ =>
       if nz (Z.land (Z.lxor (st q) new) NEEDS_ACT) then resume 4 (with_st q (activate_role new))
       else if nz (f_dq_state_is_suspended new) then ROk (with_st q new) else RCrash 3
@@ -122,7 +122,7 @@ Fixpoint run_ops (q : sq) (ops : list op) : res * list (Z * Z) :=
 Definition resume_word (q : sq) : option sq :=
   let pbw := u64 (u32 (width q - 1) * WIDTH_INTERVAL) in
   let lockbits := Z.lor (Z.lor (self q) WIDTH_FULL_BIT) IN_BARRIER in
-  match resume_loop 0 0 (st q) SUSPEND_BITS 0 pbw lockbits with
+  match resume_loop 0 0 (st q) 0 pbw lockbits with
   | Commit new _ => Some (with_st q new)
   | NoCommit _ _ =>
       if nz (Z.land (st q) HAS_SIDE) then
